@@ -359,6 +359,13 @@ func gen(r *rand.Rand, thorough bool, i int) []string {
 	if r.Intn(5) == 0 {
 		minStake = genBalance(r)
 	}
+	if np == 0 {
+		// a provider with no delegate pools at all: MinStake 0 (it is paid), 1 or big (under-staked: nothing), charges 0 / 0.2 / 1
+		minStake = []uint64{0, 0, 0, 1, 1 << 40}[r.Intn(5)]
+		if valid {
+			ratio = []float64{0, 0.2, 1, 0.5, ratio}[r.Intn(5)]
+		}
+	}
 	killed := r.Intn(15) == 0
 	spReward := uint64(0)
 	if r.Intn(8) == 0 {
@@ -383,8 +390,12 @@ func gen(r *rand.Rand, thorough bool, i int) []string {
 	}
 	for k := 0; k < nops; k++ {
 		v := genValue(r)
-		if r.Intn(3) == 0 && np > 0 {
+		if r.Intn(3) == 0 || (np == 0 && r.Intn(2) == 0) {
+			// (also for a provider WITHOUT delegate pools: the early 'everything to the provider' branch of RandN)
 			n := r.Intn(np + 2)
+			if r.Intn(6) == 0 {
+				n = 5 + r.Intn(20) // N far above the number of pools
+			}
 			old := r.Intn(4) == 0
 			seed := r.Int63()
 			if r.Intn(3) == 0 {
@@ -547,6 +558,7 @@ func oracle(ops, outs []string) *corr.Violation {
 			dsp := sp - s.spReward
 			sum := bi(dsp)
 			credited := 0
+			evMismatch := "" // reported after the exactness clause
 			inc := make([]uint64, len(p))
 			for k := range p {
 				if p[k] < s.rew[k] {
@@ -557,12 +569,12 @@ func oracle(ops, outs []string) *corr.Violation {
 					credited++
 				}
 				sum.Add(sum, bi(inc[k]))
-				if d[k] != inc[k] {
-					return mk("event-differs-from-state", fmt.Sprintf("op %d %q: delegate %d credited %d, event says %d", i, op, k, inc[k], d[k]))
+				if d[k] != inc[k] && evMismatch == "" {
+					evMismatch = fmt.Sprintf("op %d %q: delegate %d credited %d, event says %d", i, op, k, inc[k], d[k])
 				}
 			}
-			if u != dsp {
-				return mk("event-differs-from-state", fmt.Sprintf("op %d %q: provider credited %d, event says %d", i, op, dsp, u))
+			if u != dsp && evMismatch == "" {
+				evMismatch = fmt.Sprintf("op %d %q: provider credited %d, event says %d", i, op, dsp, u)
 			}
 			if dsp > value && dsp-value > 1024 {
 				// float64(value) is at most half an ulp (<= 1024 below 2^64) above value: anything more is not the rounding defect
@@ -616,6 +628,9 @@ func oracle(ops, outs []string) *corr.Violation {
 				}
 				return mk("sum-not-exact", fmt.Sprintf("op %d %q: credited %s, value %d", i, op, sum, value))
 			}
+			if evMismatch != "" {
+				return mk("event-differs-from-state", evMismatch)
+			}
 			// proportionality (amounts below 2^52): |inc_k*S - valueLeft*b_k| <= (2n+6)*S
 			vl := value - dsp
 			if vl < 1<<52 && len(sel) > 0 {
@@ -665,6 +680,10 @@ func main() {
 		[]string{"sp 0 " + f64ops.Hex(0.25) + " 1 0 10:0 20:0", "dist 1000", "dump"},
 		[]string{"sp 0 " + f64ops.Hex(0.25) + " 0 0 0:0 0:0", "dist 1000", "randn 1000 1 " + permFor(3, false, 2, 1) + " 3 new", "dump"},
 		[]string{"sp 0 " + f64ops.Hex(0.25) + " 0 0 0:0 5:0 0:0", "randn 1000 1 " + permFor(0, false, 3, 1) + " 0 new", "randn 1000 1 " + permFor(1, false, 3, 1) + " 1 new", "randn 1000 1 " + permFor(2, false, 3, 1) + " 2 new", "randn 1000 0 - 5 new", "randn 1000 2 " + permFor(5, true, 3, 2) + " 5 old", "dump"},
+		// a provider without delegate pools (seeded change C09-r3-2): everything goes to the provider, once
+		[]string{"sp 0 " + f64ops.Hex(0.2) + " 0 0", "randn 1000 1 - 7 new", "randn 1000 0 - 7 new", "randn 1000 10 - 7 old", "dist 1000", "dump"},
+		[]string{"sp 0 " + one + " 0 5", "randn 1000 3 - 1 new", "dump"},
+		[]string{"sp 1 " + f64ops.Hex(0.2) + " 0 0", "randn 1000 1 - 7 new", "dist 1000", "dump"},
 		[]string{"sp x", "dist 5", "randn 1 1 9 1 new", "sp 0 " + one + " 0 0 1:0", "randn 5 0 7 1 new", "frob"},
 	)
 	corr.Main(corr.Prop{
